@@ -2,7 +2,7 @@
 Ties between bodies of `thresholding.py` (regenerated on every run into `Generated/PyBodies.lean`) and the rules of
 `Model/C16.lean` the driver runs.
 -/
-import Mahotas.Generated.PyBodies
+import Mahotas.Generated.PyBodiesC16
 import Mahotas.Model.C16
 import Mathlib.Algebra.Order.Field.Rat
 import Mathlib.Tactic.Linarith
